@@ -560,6 +560,15 @@ func (state *BuildState) LogBuildResult(target *BuildTarget, status BuildResultS
 	}
 }
 
+// TargetFailed notifies anything waiting for this target to be built (e.g. a subinclude() call in
+// another package) that it has failed and never will be. Without this they'd wait forever if the
+// build carries on after the failure (e.g. with --keep_going).
+func (state *BuildState) TargetFailed(target *BuildTarget) {
+	if ch := state.progress.pendingTargets.Get(target.Label); ch != nil {
+		close(ch)
+	}
+}
+
 // ArchSubrepoInitialised closes the pending target channel for the non-existent arch subrepo psudo-target
 func (state *BuildState) ArchSubrepoInitialised(subrepoLabel BuildLabel) {
 	// We may have parse tasks waiting for this guy to build, check for them.
@@ -897,8 +906,8 @@ func (state *BuildState) WaitForPackage(l, dependent BuildLabel, mode ParseMode)
 }
 
 func (state *BuildState) WaitForBuiltTarget(l, dependent BuildLabel, mode ParseMode) *BuildTarget {
-	if t := state.Graph.Target(l); t != nil && t.State().IsBuilt() {
-		return t
+	if t := state.Graph.Target(l); t != nil && (t.State().IsBuilt() || t.State() >= DependencyFailed) {
+		return t // It's either done or it's never going to be; callers check which.
 	}
 
 	dependent.Name = "all" // Every target in this package depends on this one.
